@@ -1,7 +1,7 @@
 """C01 -- mutations follow GraphSpecs; a rejected operation changes nothing (structural clauses)."""
 from core import ASSUME_AT, ASSUME_RUSTC, ASSUME_PATHS
 from effects import Effects
-from engines import errorkind_sites, result_ctor_sites
+from engines import canon_exists, errorkind_sites, result_ctor_sites
 from flow import Flows, L, fmt_desc, desc_mentions
 from graphrules import INDEX_FIELDS, NODE, EDGE, SUCC, PRED, SLOT_KINDS, index_events, self_param, direct_index_access
 from guard import ok_producers, _reach_without_edge
@@ -53,6 +53,18 @@ def through_names(fl, d, depth=3):
     return d
 
 
+def variant_count(fl, test):
+    if not (isinstance(test, tuple) and test[0] == "discr" and len(test) >= 3):
+        return None
+    ty = str(test[2]).lstrip("&").replace("mut ", "").strip()
+    if ty.startswith("std::option::Option<") or ty.startswith("std::result::Result<"):
+        return 2
+    a = fl.prog.adts.get(ty.split("<")[0])
+    if a and a.get("kind") == "Enum":
+        return len(a["variants"])
+    return None
+
+
 def controlling_atoms(fl, bb):
     """[(atom test (names expanded), value taken)] for all switches bb is transitively control-dependent on"""
     b = fl.b
@@ -70,10 +82,20 @@ def controlling_atoms(fl, bb):
             val = succ == at["otherwise"]
             if neg:
                 val = not val
-            out.append((test, val, a))
         else:
             vals = [v for (v, t) in at["targets"] if t == succ]
-            out.append((test, tuple(vals) if vals else "otherwise", a))
+            if not vals and succ == at["otherwise"]:
+                # `if let Some(x) = o {..} else {..}` lists only the tested variant: the else edge stands for
+                # the remaining variants
+                n_var = variant_count(fl, test)
+                if n_var:
+                    vals = sorted(set(range(n_var)) - {v for (v, t) in at["targets"]})
+            val = tuple(vals) if vals else "otherwise"
+        # one canonical form for "is K a key of M", however it is written
+        ce = canon_exists(fl, test, val, a)
+        if ce is not None and not (test[0] == "call" and test[1].endswith("contains_key")):
+            test, val = ("call", "std::collections::HashMap::contains_key", (ce[0], ce[1])), ce[2]
+        out.append((test, val, a))
     return out
 
 
@@ -144,8 +166,14 @@ def rule1(ctx, prog, flows, effects, add_edge):
             key = "%s|Err(%s)" % (b.short, kind)
             bad = []
             exempt = []
+            is_atomic = any(prog.one(a).path == b.path for a in ATOMIC)
+            via_mutators = {a.split("::")[-1] for a in ATOMIC + BATCH}
             for st in IN.get(bb, ()):
                 for (f, wbb, callee) in st:
+                    if not is_atomic and callee in via_mutators:
+                        # a batch wrapper keeps the prefix it applied by specification (R-C01-2 decides the
+                        # wrappers); only writes it makes itself count here, however the error is re-returned
+                        continue
                     if x1_exempt(prog, flows, b, fl, wbb, callee, bb):
                         exempt.append((f, callee))
                     else:
@@ -405,13 +433,15 @@ def rule3(ctx, prog, flows, effects, add_edge):
         atoms = controlling_atoms(fl, bb)
         n_dec += 1
         ctx.require(has(atoms, lambda t, v: place_ends(t, "specs.multi_edges")), "R-C01-3", "edge-write|%s|%s|%s" % (f, k, multi_tag(atoms)), "the %s on `%s` is decided by specs.multi_edges" % (k, f), None, loc_str(site.span))
-    ctx.floor("R-C01-3", "edge_store_writes", n_dec, 6)
+    ctx.floor("R-C01-3", "edge_store_writes", n_dec, 2)
     # the replacing insert (pair exists) must sit under a test that separates KeepLast from the rest
     for (bb, site, f, k) in edge_events:
         atoms = controlling_atoms(fl, bb)
         exists = has(atoms, lambda t, v: v is True and mentions(t, lambda d: d[0] == "call" and d[1].split("::")[-1] == "get_edge_by_indexes"))
         if k == "HashMap::insert" and exists:
             sep = has(atoms, lambda t, v: isinstance(t, tuple) and t[0] == "discr" and t[1].endswith("specs.edge_dedupe_strategy") and variant_is(prog, "graph_specs::EdgeDedupeStrategy", v, "KeepLast"))
+            # the same test written with `==` / `!=` instead of a `match`
+            sep = sep or has(atoms, lambda t, v: isinstance(t, tuple) and t[0] == "call" and t[1].split("::")[-1] in ("eq", "ne") and v is (t[1].split("::")[-1] == "eq") and mentions(t, lambda d: d[0] == "place" and d[1].endswith("specs.edge_dedupe_strategy")) and mentions(t, lambda d: d[0] == "const" and d[1].endswith("EdgeDedupeStrategy::KeepLast")))
             ctx.require(sep, "R-C01-3", "replace|%s" % f, "replacing the stored edge in `%s` happens only under EdgeDedupeStrategy::KeepLast" % f, "the stored edge in `%s` is replaced without a test that separates KeepLast from KeepFirst" % f, loc_str(site.span))
 
 
@@ -661,7 +691,7 @@ def rule6(ctx, prog, flows, effects, add_edge):
                 problems.append("under %s add_edge does %s + %d successor updates, the specs dictate %s + %d" % (show, sorted(obs), nsucc, sorted(exp), exp_succ))
     ctx.counters["add_edge_paths"] = len(outs)
     ctx.counters["add_edge_table_rows"] = rows
-    ctx.floor("R-C01-6", "add_edge_paths", len(outs), 60)
+    ctx.floor("R-C01-6", "add_edge_paths", len(outs), 20)
     uniq = []
     for p_ in problems:
         if p_ not in uniq:
